@@ -231,7 +231,8 @@ func (e *DocumentError) pointerToTheErrorCharacter() string {
 
 	content := e.file.Content()
 	begin := e.lineBeginning()
-	spaces := content[begin:].CountSpacesFromLeft()
+	// The indentation of this line, not of the rest of the file.
+	spaces := content[begin:e.lineEnd()].CountSpacesFromLeft()
 
 	i := int(e.index) - int(begin) - spaces
 	if i < 0 {
